@@ -1460,6 +1460,9 @@ def _find_helper(
     kwargs['normalized'] = bool(normalize)
 
     forms = lemmatize(form, pos) if lemmatize else {}
+    # a part of speech with an empty set of forms proposes nothing (an
+    # empty set must not reach the queries, where it means "any form")
+    forms = {_pos: _forms for _pos, _forms in forms.items() if _forms}
     # if no lemmatizer or word not covered by lemmatizer, back off to
     # the original form and pos
     if not forms:
